@@ -8,8 +8,10 @@ from ..tlc import MachineryError
 
 
 def universe(ctx, rng):
+    # floats are in quarters: 4 = 1.0, 0 = 0.0, 48 = 12.0 are integral floats EQUAL (==, hash) to the ints 1, 0, 12
     leaves = [{"t": "int", "v": v} for v in (0, 1, -2, 12)] + [{"t": "flt", "v": q} for q in (2, 6, -10)] + \
-             [{"t": "str", "c": [ord(c) for c in s]} for s in ("", "a", "it's", 'say "hi"', "A b", "'q'", "1")]
+             [{"t": "str", "c": [ord(c) for c in s]} for s in ("", "a", "it's", 'say "hi"', "A b", "'q'", "1")] + \
+             [{"t": "flt", "v": q} for q in (4, 0, 48)]
     vals = list(leaves)
 
     def seqs(pool, maxlen):
@@ -18,7 +20,7 @@ def universe(ctx, rng):
             for tpl in itertools.product(pool, repeat=k):
                 out.append(list(tpl))
         return out
-    small = leaves[:3] + leaves[7:11]
+    small = leaves[:3] + leaves[7:11] + leaves[14:16]
     l1 = []
     for s in seqs(small, 2):
         l1.append({"t": "list", "a": s})
